@@ -150,7 +150,14 @@ class TableTheory:
         return z3.Not(TAttr.is_t_absent(TABLE_ATTR(name)))
 
     def getattr(self, interp, st, v, name, node=None):
-        raise Unsupported("table attribute by literal name")
+        # the lookup functions under contract read the table only through hasattr/getattr of the KEY;
+        # any other attribute is undeclared state (e.g. a cache): reported by the frame obligation, and
+        # modelled as an initially empty dict so that the path can continue
+        st.ghost.setdefault("illegal_writes", []).append("table.%s (undeclared state)" % name)
+        store = st.ghost.setdefault("table_state", {})
+        if name not in store:
+            store[name] = VDict([])
+        return store[name]
 
     def getattr_sym(self, interp, st, v, name):
         name = name if not isinstance(name, str) else z3.StringVal(name)
@@ -352,3 +359,203 @@ def _reduce_unit(kind):
 
 
 U_REDUCE = [_reduce_unit(k) for k in ("element", "isotope", "ion", "isotope_ion")]
+
+
+# ------------------------------------------------------------------------------ static facts about the classes (absint)
+
+def lemma_atom_identity():
+    """table atoms compare and hash by identity (L1 relies on it: atoms are dictionary keys of every
+    composition): Element, Isotope and Ion define no comparison or hash methods"""
+    import ast
+    from pyvc import extract
+    st = State()
+    for cls in ("Element", "Isotope", "Ion"):
+        node = extract.class_node(CORE, cls)
+        bad = [n.name for n in node.body if isinstance(n, ast.FunctionDef)
+               and n.name in ("__eq__", "__ne__", "__hash__", "__lt__", "__le__", "__gt__", "__ge__", "__bool__", "__len__")]
+        bad += [t.id for n in node.body if isinstance(n, ast.Assign) for t in n.targets
+                if isinstance(t, ast.Name) and t.id in ("__eq__", "__hash__")]
+        st.oblige("class %s defines no equality / hash / ordering / truth methods" % cls, z3.BoolVal(not bad), kind="lemma",
+                  info={"found": bad}, assume_after=False)
+    return [st]
+
+
+L_ATOM_IDENTITY = Lemma("atoms.compare-by-identity", lemma_atom_identity)
+
+
+def registrations():
+    """[(names, loader function name, {class: bool})] from the delayed_load calls of periodictable/__init__.py"""
+    import ast
+    from pyvc import extract
+    mod = extract.module("periodictable")
+    out = []
+    for node in ast.walk(mod.tree):
+        if isinstance(node, ast.Call) and isinstance(node.func, ast.Attribute) and node.func.attr == "delayed_load":
+            names = [e.value for e in node.args[0].elts]
+            loader = node.args[1].id
+            flags = {"Element": True, "Isotope": False, "Ion": False}
+            for kw in node.keywords:
+                key = {"element": "Element", "isotope": "Isotope", "ion": "Ion"}[kw.arg]
+                flags[key] = bool(ast.literal_eval(kw.value))
+            out.append((names, loader, flags))
+    return mod, out
+
+
+def lemma_registration_matches_loader():
+    """the classes on which a lazily loaded name is registered are the classes on which its loader installs a
+    class-level value (otherwise the first read through the other class bypasses the loader)"""
+    import ast
+    from pyvc import extract
+    mod, regs = registrations()
+    st = State()
+    st.oblige("seven lazy groups are registered", z3.BoolVal(len(regs) == 7), kind="lemma", info={"found": len(regs)}, assume_after=False)
+    for names, loader, flags in regs:
+        fn = mod.toplevel(loader)
+        target = None
+        for n in ast.walk(fn):
+            if isinstance(n, ast.Call) and isinstance(n.func, ast.Attribute) and isinstance(n.func.value, ast.Name):
+                target = (n.func.value.id, n.func.attr)
+        if target is None:
+            st.oblige("loader %s calls module.init(elements)" % loader, z3.BoolVal(False), kind="lemma", assume_after=False)
+            continue
+        lm = extract.module("periodictable." + target[0])
+        init = lm.toplevel(target[1])
+        assigned = set()
+        for n in ast.walk(init):
+            if isinstance(n, ast.Assign):
+                for t in n.targets:
+                    if isinstance(t, ast.Attribute) and isinstance(t.value, ast.Name) and t.value.id in flags and t.attr in names:
+                        assigned.add(t.value.id)
+        registered = {c for c, on in flags.items() if on}
+        if assigned:
+            st.oblige("group %s: registered on %s == classes given a class-level value by %s.%s" % (
+                names[0], sorted(registered), target[0], target[1]), z3.BoolVal(assigned == registered), kind="lemma",
+                info={"assigned": sorted(assigned), "registered": sorted(registered)}, assume_after=False)
+    return [st]
+
+
+L_REGISTRATION = Lemma("delayed_load.registration-matches-loader", lemma_registration_matches_loader)
+
+
+# ------------------------------------------------------------------------------ Element.isotopes
+
+def _isos_inputs(st, interp):
+    use_state(st)
+    el = VObj((CORE, "Element"), {"symbol": st.fresh("symbol", z3.StringSort())})
+    keys = [st.fresh("A%d" % i, z3.IntSort()) for i in range(3)]
+    st.assume(z3.Distinct(*keys))
+    el.attrs["_isotopes"] = VDict([[k, VObj((CORE, "Isotope"), {"element": el, "isotope": k})] for k in keys])
+    return [el], {}, {"el": el, "keys": keys}
+
+
+def _isos_post(st, interp, C, res):
+    if res.outcome == "raise":
+        st.oblige("never-raises", False, kind="raises", info={"exc": res.exc})
+        return
+    v, keys = res.value, C["keys"]
+    ok = isinstance(v, VList) and len(v.items) == len(keys)
+    st.oblige("post.one entry per isotope of the element", z3.BoolVal(ok))
+    if not ok:
+        return
+    items = [to_z3num(x) for x in v.items]
+    st.oblige("post.increasing mass numbers", z3.And([items[i] < items[i + 1] for i in range(len(items) - 1)]))
+    st.oblige("post.exactly the current keys of the isotope table (a permutation)",
+              z3.And([z3.Or([it == k for it in items]) for k in keys]))
+    st.oblige("post.a fresh list (callers may edit it)", z3.BoolVal(not any(v is x for x in C["el"].attrs.values())))
+
+
+U_EL_ISOTOPES = Unit("Element.isotopes", CORE + ".Element.isotopes", _isos_inputs, _isos_post,
+                     replay={"module": "c08", "task": "replay"})
+
+
+# ------------------------------------------------------------------------------ PeriodicTable.isotope
+
+class IsotopeListOf:
+    """`A in element.isotopes`"""
+
+    def __init__(self, atom):
+        self.atom = atom
+
+    def contains(self, interp, st, c, item):
+        return HAS_ISOTOPE(self.atom, to_z3num(item))
+
+    def truth(self, interp, st, v):
+        return True
+
+    def equals(self, interp, st, a, b):
+        return a is b
+
+
+def _table_setattr(self, interp, st, v, name, value, node=None):
+    st.ghost.setdefault("illegal_writes", []).append("table.<attribute>")
+    return None
+
+
+TableTheory.setattr = _table_setattr
+
+
+def _iso_inputs(kind):
+    def mk(st, interp):
+        use_state(st)
+        interp.env_overrides.update(_patched_builtins(st))
+        s = st.fresh("input", z3.StringSort())
+        left, right = st.fresh("left_of_dash", z3.StringSort()), st.fresh("right_of_dash", z3.StringSort())
+        dash = z3.StringVal("-")
+        if kind == "no-dash":
+            st.assume(z3.Not(z3.Contains(s, dash)))
+        elif kind == "one-dash":
+            st.assume(z3.And(s == z3.Concat(left, dash, right), z3.Not(z3.Contains(left, dash)), z3.Not(z3.Contains(right, dash))))
+            st.assume(z3.Length(left) <= 4)
+        else:
+            st.assume(z3.Contains(s, dash))
+
+        def split(interp_, st_, text, args):
+            if args != ["-"] or not z3.eq(text, s):
+                raise Unsupported("unexpected split")
+            if kind == "no-dash":
+                return VList([s])
+            if kind == "one-dash":
+                return VList([left, right])
+            return VList([left, right, st_.fresh("rest", z3.StringSort())])
+        st.ghost["str_split"] = split
+        st.ghost["atom_attr"] = lambda i_, s_, v, name, node: VSym(v.expr, IsotopeListOf(v.expr)) if name == "isotopes" else NotImplemented
+        st.ghost["atom_getitem"] = _atom_getitem
+        table = VSym(z3.Int("the_table"), TABLE)
+        return [table, s], {}, {"s": s, "left": left, "right": right, "kind": kind}
+    return mk
+
+
+def _iso_post(st, interp, C, res):
+    kind, s = C["kind"], C["s"]
+    sym = s if kind == "no-dash" else C["right"]
+    t = TABLE_ATTR(sym)
+    # int() leniency: an explicit '+' sign is read as the same number (not a mismatch of the key)
+    plus = z3.PrefixOf(z3.StringVal("+"), C["left"])
+    body = z3.If(plus, z3.SubString(C["left"], 1, z3.Length(C["left"]) - 1), C["left"])
+    digits = z3.InRe(body, z3.Plus(z3.Range("0", "9")))
+    A = z3.StrToInt(body)
+    if kind == "no-dash":
+        accept = z3.Or(TAttr.is_t_element(t), TAttr.is_t_isotope(t))
+        want = z3.If(TAttr.is_t_element(t), TAttr.t_el(t), TAttr.t_iso(t))
+    elif kind == "one-dash":
+        # 'A-Sym': A a positive mass number of an isotope the element has (D/T take no mass number)
+        accept = z3.And(digits, A > 0, TAttr.is_t_element(t), HAS_ISOTOPE(TAttr.t_el(t), A))
+        want = ISOTOPE_OF(TAttr.t_el(t), A)
+    else:
+        accept = z3.BoolVal(False)
+        want = None
+    if res.outcome == "raise":
+        st.oblige("post.ValueError exactly for keys that name no element / isotope of the table",
+                  z3.And(z3.BoolVal(res.exc == "ValueError"), z3.Not(accept)), kind="raises", info={"exc": res.exc})
+        return
+    r = res.value
+    ok = isinstance(r, VSym) and r.theory is ATOMS
+    st.oblige("post.returns a table atom", z3.BoolVal(ok))
+    if ok:
+        st.oblige("post.accepted keys name an element, D/T, or an existing isotope", accept)
+        if want is not None:
+            st.oblige("post.the atom returned is the one the key names", r.expr == want)
+
+
+U_TABLE_ISOTOPE = [Unit("PeriodicTable.isotope[%s]" % k, CORE + ".PeriodicTable.isotope", _iso_inputs(k), _iso_post,
+                        replay={"module": "c08", "task": "replay"}) for k in ("no-dash", "one-dash", "two-dashes")]
